@@ -471,6 +471,12 @@ def path_events(p, env):
     return out
 
 
+def rows(seq):
+    """order-free form of [(condition pairs, outcome)] decision rows: which arm of an if comes first, and in which order the
+    tests were made, is spelling; the set of (facts -> outcome) rows is the decision"""
+    return sorted(((tuple(sorted((tuple(_fold(c[0], c[1])) for c in conds), key=repr)), out) for conds, out in seq), key=repr)
+
+
 def neg(cp):
     """the opposite outcome of a (condition, polarity) pair"""
     return CP(cp[0], not cp[1])
